@@ -380,7 +380,7 @@ fn describe_mismatch(what: &str, got: &[u8], want: &[u8]) -> String {
 /// (see the zero-frequency class below) must abort this process, not exhaust the machine.
 pub static NO_MEMORY_LIMIT: std::sync::atomic::AtomicBool = std::sync::atomic::AtomicBool::new(false);
 
-fn limit_memory() {
+pub fn limit_memory() {
     static DONE: OnceLock<()> = OnceLock::new();
     DONE.get_or_init(|| {
         // (the libFuzzer tier runs under AddressSanitizer, which needs its huge address-space
